@@ -18,6 +18,10 @@ pub struct Case {
     pub name: String,
     /// (message index, alteration of the genuine message) - one or two of them
     pub alts: Vec<(usize, Msg)>,
+    /// 0 = default backend, comfortably large buffers; 1 = ring-preferring backend, payload buffers of exactly the
+    /// payload size (the backends branch on the output size); 2 = ring-preferring backend, large buffers
+    #[serde(default)]
+    pub variant: u8,
 }
 
 fn base_cfg(p: &Proto, eph: u8) -> Config {
@@ -44,7 +48,11 @@ fn parallel_messages(p: &Proto) -> Vec<Vec<u8>> {
 /// Returns violations (signature, detail) and whether the alteration was actually delivered and differed.
 pub fn run_case(c: &Case) -> (Vec<(String, String)>, bool) {
     let p = Proto::parse(&c.name).expect("name");
-    let cfg = base_cfg(&p, 0);
+    let mut cfg = base_cfg(&p, 0);
+    if c.variant != 0 {
+        cfg.backend = [crate::seam::Backend::Ring, crate::seam::Backend::Ring];
+    }
+    let rcap = if c.variant == 1 { Cap::NeedPlus(0) } else { Cap::Roomy };
     let mut e = Exec::new(&cfg);
     if e.build_err.is_some() {
         return (vec![], false);
@@ -64,7 +72,7 @@ pub fn run_case(c: &Case) -> (Vec<(String, String)>, bool) {
             continue;
         }
         if alts.is_empty() {
-            e.step(&Op::HsRead { side: r, msg: Msg::Last(w), cap: Cap::Roomy });
+            e.step(&Op::HsRead { side: r, msg: Msg::Last(w), cap: rcap.clone() });
             any_err |= !e.steps.last().unwrap().real.is_ok();
             continue;
         }
@@ -76,14 +84,14 @@ pub fn run_case(c: &Case) -> (Vec<(String, String)>, bool) {
             let (altered, _) = e.resolve_msg(m);
             if altered == genuine {
                 // the alteration is the identity on this message: nothing to judge
-                e.step(&Op::HsRead { side: r, msg: Msg::Last(w), cap: Cap::Roomy });
+                e.step(&Op::HsRead { side: r, msg: Msg::Last(w), cap: rcap.clone() });
                 any_err |= !e.steps.last().unwrap().real.is_ok();
                 break;
             }
             if k == 0 && matches!(m, Msg::Raw(_)) && p.pattern.is_oneway() {
                 // one-way pattern, first message of another honest session: a valid message, and the
                 // initiator is finished after its only write whatever the responder receives - not judged
-                e.step(&Op::HsRead { side: r, msg: m.clone(), cap: Cap::Roomy });
+                e.step(&Op::HsRead { side: r, msg: m.clone(), cap: rcap.clone() });
                 break;
             }
             delivered_altered = true;
@@ -94,7 +102,7 @@ pub fn run_case(c: &Case) -> (Vec<(String, String)>, bool) {
             let touches_encrypted = !replayed_first
                 && ((altered.len() != genuine.len() && tail_encrypted)
                     || fields.iter().any(|f| f.encrypted && (f.start..f.start + f.len).any(|i| i < genuine.len() && altered.get(i) != genuine.get(i))));
-            e.step(&Op::HsRead { side: r, msg: m.clone(), cap: Cap::Roomy });
+            e.step(&Op::HsRead { side: r, msg: m.clone(), cap: rcap.clone() });
             let res = e.steps.last().unwrap().real.clone();
             match &res {
                 Real::Ok(n, _) => {
@@ -186,7 +194,7 @@ fn alterations(p: &Proto, k: usize, bit_granular: bool, par: &[Vec<u8>]) -> Vec<
 pub fn run(tier: Tier) -> i32 {
     let ctx = Ctx::new("C03", tier, "fault_enumeration");
     let quick = ctx.quick();
-    ctx.set_rule("case = (handshake name, message index, alteration of that message: single-bit flips (every bit on the base patterns of 2 suites, one bit per byte + key top bits elsewhere), every truncation length, extension by 1 and 16, replacement by each message of a parallel session / earlier message of this session / zeros); the altered message is delivered instead of the genuine one and the session continues honestly. Oracle: (a) never both finished without an error; (b) if the altered bytes intersect a field the reference field map marks encrypted, or the length of an encrypted tail changed, the receiving read itself must return Err. Bound 2: two altered messages, or two altered copies of the same message (the second after the first was rejected). non-trivial = the delivered bytes differed from the genuine message");
+    ctx.set_rule("case = (handshake name, message index, alteration of that message: single-bit flips (every bit on the base patterns of 2 suites, one bit per byte + key top bits elsewhere), every truncation length, extension by 1 and 16, replacement by each message of a parallel session / earlier message of this session / zeros); the altered message is delivered instead of the genuine one and the session continues honestly; default backend with large buffers, and (base patterns) the ring-preferring backend with exactly payload-sized and with large payload buffers. Oracle: (a) never both finished without an error; (b) if the altered bytes intersect a field the reference field map marks encrypted, or the length of an encrypted tail changed, the receiving read itself must return Err. Bound 2: two altered messages, or two altered copies of the same message (the second after the first was rejected). non-trivial = the delivered bytes differed from the genuine message");
     let mut jobs: Vec<(Proto, bool)> = vec![];
     for p in patterns::all_protos_for_suite(DhAlg::X25519, CipherAlg::ChaChaPoly, HashAlg::Blake2s) {
         jobs.push((p, false));
@@ -209,12 +217,32 @@ pub fn run(tier: Tier) -> i32 {
             let mut v = vec![];
             for k in 0..p.n_msgs() {
                 for m in alterations(p, k, *gran, &par) {
-                    v.push(Case { name: p.name.clone(), alts: vec![(k, m)] });
+                    v.push(Case { name: p.name.clone(), alts: vec![(k, m)], variant: 0 });
                 }
             }
             v
         })
         .collect();
+    // the same alphabet on the ring-preferring backend, with exactly sized and with large payload buffers
+    let mut cases = cases;
+    let ring_cases: Vec<Case> = patterns::base_patterns()
+        .par_iter()
+        .enumerate()
+        .flat_map(|(i, b)| {
+            let p = Proto::new(b, &[], DhAlg::X25519, if i % 2 == 0 { CipherAlg::AesGcm } else { CipherAlg::ChaChaPoly }, HashAlg::Sha256).unwrap();
+            let par = parallel_messages(&p);
+            let mut v = vec![];
+            for k in 0..p.n_msgs() {
+                for m in alterations(&p, k, false, &par) {
+                    v.push(Case { name: p.name.clone(), alts: vec![(k, m.clone())], variant: 1 });
+                    v.push(Case { name: p.name.clone(), alts: vec![(k, m)], variant: 2 });
+                }
+            }
+            v
+        })
+        .collect();
+    ctx.count("ring_backend_cases", ring_cases.len() as u64);
+    cases.extend(ring_cases);
     ctx.count("bound1_cases", cases.len() as u64);
     let eval = |c: &Case| {
         let (v, nontrivial) = run_case(c);
@@ -241,7 +269,7 @@ pub fn run(tier: Tier) -> i32 {
                 let step = if quick { 7 } else { 1 };
                 for f in &firsts {
                     for s in seconds.iter().step_by(step) {
-                        b2.push(Case { name: p.name.clone(), alts: vec![(k1, f.clone()), (k2, s.clone())] });
+                        b2.push(Case { name: p.name.clone(), alts: vec![(k1, f.clone()), (k2, s.clone())], variant: 0 });
                     }
                 }
             }
@@ -258,7 +286,7 @@ pub fn run(tier: Tier) -> i32 {
             let step = if quick { 3 } else { 1 };
             for f in &firsts {
                 for s2 in seconds.iter().step_by(step) {
-                    b2.push(Case { name: p.name.clone(), alts: vec![(k, f.clone()), (k, s2.clone())] });
+                    b2.push(Case { name: p.name.clone(), alts: vec![(k, f.clone()), (k, s2.clone())], variant: (k % 3) as u8 });
                 }
             }
         }
